@@ -1,5 +1,5 @@
 (* C02: encoding a well-formed message and decoding the result gives the message back. *)
-From NV Require Import Lib.Base Lib.ListExt Codec.Lang Codec.Def Codec.Sem Codec.Total Codec.WF Codec.DispatchProofs.
+From NV Require Import Lib.Base Lib.ListExt Codec.Lang Codec.Def Codec.Sem Codec.Total Codec.WF Codec.LoopLemmas.
 From Coq Require Import String ZifyN ZifyNat ZifyBool.
 Open Scope N_scope.
 
